@@ -13,6 +13,7 @@ import logging
 from typing import Any, Callable
 
 from sim import clock as vclock
+from sim import vthreads
 from sim.fakek8s import FakeK8s, FakeSession, Plan, ResDef
 from sim.vloop import Stall, VLoop, World
 
@@ -152,6 +153,7 @@ class Operator:
         for s in self.sessions:
             s.dead = True
         loop = self.loop
+        self._drop_threads()
         for _ in range(200):
             pend = loop.pending_tasks()
             if not pend:
@@ -164,6 +166,11 @@ class Operator:
                 loop.step()
         sim.world.drop_loop(loop)
 
+    def _drop_threads(self) -> None:
+        ex = getattr(self.settings.execution, 'executor', None)
+        if isinstance(ex, vthreads.VExecutor):
+            ex.kill_all()
+
     def finish(self, grace: float = 120) -> str:
         """Graceful stop and wait for kopf.operator() to return."""
         if not self.done:
@@ -172,6 +179,12 @@ class Operator:
         out = self.outcome()
         if self.loop in self.sim.world.loops:
             # let leftovers (if any) unwind, then drop the loop
+            self._drop_threads()
+            for _ in range(100):
+                if not self.loop.busy(): break
+                self.loop.step()
+            for t in self.loop.pending_tasks():      # orphans (e.g. the guard of an abandoned daemon)
+                t.cancel()
             for _ in range(100):
                 if not self.loop.busy(): break
                 self.loop.step()
@@ -204,7 +217,7 @@ class Sim:
                 loop = asyncio.get_running_loop()
                 name = getattr(loop, 'name', None)
             except RuntimeError:
-                name = None
+                name = vthreads.current_loop_name()      # a hook reached from a synchronous handler's thread
             self.rec(ev, loop=name, **fields)
         veriftrace.sink = sink
 
@@ -226,6 +239,8 @@ class Sim:
         s.process.ultimate_exiting_timeout = None
         s.watching.inactivity_timeout = 10_000_000
         s.networking.request_timeout = None
+        s.execution.executor = vthreads.VExecutor()       # synchronous handlers: threads in lock-step with the virtual loop
+        vthreads.install()
         for path, val in tune.items():
             obj = s
             parts = path.split('__')
@@ -259,6 +274,10 @@ class Sim:
                         self.world.drop_loop(op.loop)
                 except Exception:
                     pass
+            try:
+                op._drop_threads()
+            except Exception:
+                pass
         logging.disable(logging.NOTSET)
 
     # ---- objects
@@ -285,14 +304,17 @@ class Sim:
 
     # ---- scripted handlers
     def handler(self, hid: str, script: list[Any] | None = None, *, kind: str = 'change', duration: float = 0,
-                default: Any = 'ok', extra: Callable[..., Any] | None = None) -> Callable[..., Any]:
+                default: Any = 'ok', extra: Callable[..., Any] | None = None, sync: bool = False) -> Callable[..., Any]:
         """A recording coroutine handler with a per-invocation outcome script.
 
         Outcomes: 'ok' | ('ok', result) | ('temp', delay) | 'perm' | 'exc' | ('sleep', d, outcome).
+        With sync=True it is a plain function: kopf runs it in a thread of the executor (a virtual thread here).
         """
         import kopf
         outcomes = list(script or [])
         sim = self
+        if sync:
+            return self._sync_handler(hid, outcomes, kind, duration, default, extra)
 
         async def fn(**kw: Any) -> Any:
             loop = asyncio.get_running_loop()
@@ -339,6 +361,58 @@ class Sim:
                 sim.rec('h.exit', loop=lname, id=hid, kind=kind, uid=md.get('uid'), outcome=outcome)
         fn.__name__ = fn.__qualname__ = hid.replace('/', '_')
         return fn
+
+
+def _sync_handler(self: Sim, hid: str, outcomes: list[Any], kind: str, duration: float, default: Any,
+                  extra: Callable[..., Any] | None) -> Callable[..., Any]:
+    import kopf
+    sim = self
+
+    def fn(**kw: Any) -> Any:
+        lname = vthreads.current_loop_name()
+        out = outcomes.pop(0) if outcomes else default
+        body = kw.get('body')
+        md = (body or {}).get('metadata', {}) if body is not None else {}
+        info = dict(loop=lname, id=hid, kind=kind, uid=md.get('uid'), name=md.get('name'),
+                    reason=str(kw['reason'].value) if kw.get('reason') is not None and hasattr(kw['reason'], 'value') else kw.get('reason'),
+                    retry=kw.get('retry'), rv=_int(md.get('resourceVersion')),
+                    deleting=md.get('deletionTimestamp') is not None,
+                    fins=list(md.get('finalizers', []) or []),
+                    spec=dict(body.get('spec', {})) if body is not None else None,
+                    diff_empty=(not kw['diff']) if 'diff' in kw and kw['diff'] is not None else None,
+                    type=kw.get('type') if kind == 'event' else None,
+                    script=out if isinstance(out, str) else list(out), sync=True)
+        sim.rec('h.enter', **info)
+        result = None
+        outcome = 'ok'
+        try:
+            if extra is not None:
+                extra(**kw)
+            o = out
+            if isinstance(o, tuple) and o[0] == 'sleep':
+                vthreads.sleep(o[1]); o = o[2] if len(o) > 2 else 'ok'
+            elif duration:
+                vthreads.sleep(duration)
+            if o == 'ok':
+                return None
+            if isinstance(o, tuple) and o[0] == 'ok':
+                result = o[1]; return result
+            if isinstance(o, tuple) and o[0] == 'temp':
+                outcome = 'temp'; raise kopf.TemporaryError('scripted', delay=o[1])
+            if o == 'perm':
+                outcome = 'perm'; raise kopf.PermanentError('scripted')
+            if o == 'exc':
+                outcome = 'exc'; raise ValueError('scripted arbitrary error')
+            raise AssertionError(f'bad script item {o!r}')
+        except vthreads.Killed:
+            outcome = 'killed'; raise
+        finally:
+            sim.rec('h.exit', loop=lname, id=hid, kind=kind, uid=md.get('uid'), outcome=outcome)
+    fn.__name__ = fn.__qualname__ = hid.replace('/', '_')
+    return fn
+
+
+Sim._sync_handler = _sync_handler      # type: ignore[attr-defined]
 
 
 def _int(x: Any) -> int | None:
